@@ -3,6 +3,7 @@
 p="$1"; shift
 cd /repo && git apply "$p" || { echo "patch does not apply"; exit 3; }
 cd /verif
+export HV_EVIDENCE_DIR=/tmp/hv-seed-evidence HV_REPLAY_DIR=/tmp/hv-seed-replays
 for id in "$@"; do
   echo "=== $id against $(basename $(dirname $p))/$(basename $p)"
   ./check "$id" > /tmp/try_seed_$$.out 2>&1
